@@ -98,6 +98,13 @@ Qed.
 Definition gate_refuses_special : Prop :=
   forall e s p a, links e p = None -> special e p = true -> exists er, handle_overwrite e s p a = (s, Err er).
 
+(* FIX-STATE OBLIGATION (5a15038 / F-NONREGULAR-TARGET): unconditional; reverting is_file() to not is_dir() breaks this theorem *)
+Theorem gate_refuses_special_now : gate_refuses_special.
+Proof.
+  intros e s p a L S. unfold handle_overwrite, resolve, is_symlink, fs_exists_at, fs_is_file. rewrite L, S.
+  rewrite ?orb_true_r. destruct (s p) as [f|]; cbn [negb]; rewrite ?andb_false_r; eexists; reflexivity.
+Qed.
+
 (* ------------------------------------------------------------------------------------------ *)
 (* the footprint relation: what any sequence of operations can do to a tree when it only        *)
 (* addresses entries in T and only creates missing directories in A                             *)
@@ -742,6 +749,9 @@ Proof.
   - destruct (special e p) eqn:S; [|left; auto]. right. destruct H as [H|H]; [congruence|]. intros s a. now apply H.
 Qed.
 
+Lemma specials_safe_now : forall c, specials_safe c.
+Proof. intros c p _. right. exact gate_refuses_special_now. Qed.
+
 Lemma targets_plain_safe : forall c, targets_plain c -> specials_safe c.
 Proof. intros c H p Hp. left. now apply H. Qed.
 
@@ -1061,90 +1071,91 @@ Notation HIST := (history render e).
 
 (* any state -- in particular the state after any history of runs and crashes *)
 Notation specials_safe := (specials_safe e).
+Notation SS := (specials_safe_now e).
 Notation targets_plain := (targets_plain e).
 
-Lemma canonical_any_state : forall s c p, specials_safe c ->
+Lemma canonical_any_state : forall s c p,
   c_dryrun c = false -> no_external (c_filepps c) = true -> c_filepps c <> [] -> snd (STEP s c) = Ok -> In p (targets c) ->
   obs (fst (STEP s c) p) = canonical render e c p.
 Proof.
-  intros s c p Ls Hd Hne Hpp Hok Hin. rewrite step_flat in *.
+  intros s c p Hd Hne Hpp Hok Hin. rewrite step_flat in *.
   destruct (run_list (write_item render e c) s (items c)) as [s' r] eqn:H. cbn [fst snd] in *. subst r.
-  destruct (list_canonical render e Hind Hwf c Hd Hne (items c) s s' p Ls H Hin) as [f' [E [C [_ M]]]].
+  destruct (list_canonical render e Hind Hwf c Hd Hne (items c) s s' p (SS c) H Hin) as [f' [E [C [_ M]]]].
   rewrite E. unfold obs, canonical. rewrite C, (M Hpp). f_equal. f_equal. now apply last_mode_irrel.
 Qed.
 
-Lemma content_any_state : forall s c p, specials_safe c ->
+Lemma content_any_state : forall s c p,
   c_dryrun c = false -> no_external (c_filepps c) = true -> snd (STEP s c) = Ok -> In p (targets c) ->
   exists f, fst (STEP s c) p = Some f /\ f_isdir f = false /\ f_cid f = render empty_fs 0 (c_class c) p.
 Proof.
-  intros s c p Ls Hd Hne Hok Hin. rewrite step_flat in *.
+  intros s c p Hd Hne Hok Hin. rewrite step_flat in *.
   destruct (run_list (write_item render e c) s (items c)) as [s' r] eqn:H. cbn [fst snd] in *. subst r.
-  destruct (list_canonical render e Hind Hwf c Hd Hne (items c) s s' p Ls H Hin) as [f' [E [C [D _]]]]. eauto.
+  destruct (list_canonical render e Hind Hwf c Hd Hne (items c) s s' p (SS c) H Hin) as [f' [E [C [D _]]]]. eauto.
 Qed.
 
-Theorem regen_equals_fresh : forall h s0 c p, specials_safe c ->
+Theorem regen_equals_fresh : forall h s0 c p,
   c_dryrun c = false -> no_external (c_filepps c) = true -> c_filepps c <> [] ->
   snd (STEP (HIST s0 h) c) = Ok -> snd (STEP empty_fs c) = Ok -> In p (targets c) ->
   obs (fst (STEP (HIST s0 h) c) p) = obs (fst (STEP empty_fs c) p).
 Proof.
-  intros h s0 c p Ls Hd Hne Hpp H1 H2 Hin.
-  rewrite (canonical_any_state (HIST s0 h) c p Ls Hd Hne Hpp H1 Hin).
-  now rewrite (canonical_any_state empty_fs c p Ls Hd Hne Hpp H2 Hin).
+  intros h s0 c p Hd Hne Hpp H1 H2 Hin.
+  rewrite (canonical_any_state (HIST s0 h) c p Hd Hne Hpp H1 Hin).
+  now rewrite (canonical_any_state empty_fs c p Hd Hne Hpp H2 Hin).
 Qed.
 
 (* ---- footprint ---- *)
-Theorem written_in_footprint : forall s c q, specials_safe c -> fst (STEP s c) q <> s q ->
+Theorem written_in_footprint : forall s c q, fst (STEP s c) q <> s q ->
   In q (targets c) \/ (In q (dir_targets e c) /\ s q = None /\ fst (STEP s c) q = Some (new_dir e)).
 Proof.
-  intros s c q Ls H. destruct (in_dec N.eq_dec q (targets c)) as [X|X]; [now left|]. right.
-  destruct (step_rel_fine render e Hwf c Ls s q) as [F _]. destruct (F X) as [Y|Y]; [contradiction | exact Y].
+  intros s c q H. destruct (in_dec N.eq_dec q (targets c)) as [X|X]; [now left|]. right.
+  destruct (step_rel_fine render e Hwf c (SS c) s q) as [F _]. destruct (F X) as [Y|Y]; [contradiction | exact Y].
 Qed.
 
-Theorem foreign_event : forall s ev q, specials_safe (ev_cfg ev) ->
+Theorem foreign_event : forall s ev q,
   ~ In q (targets (ev_cfg ev)) -> (s q <> None \/ ~ In q (dir_targets e (ev_cfg ev))) -> apply_event render e s ev q = s q.
 Proof.
-  intros s ev q Ls X Z. destruct (event_rel_fine render e Hwf ev s Ls q) as [F _].
+  intros s ev q X Z. destruct (event_rel_fine render e Hwf ev s (SS (ev_cfg ev)) q) as [F _].
   destruct (F X) as [Y|[A [N _]]]; [exact Y|]. destruct Z; [congruence | contradiction].
 Qed.
 
-Theorem foreign_untouched : forall s c q, specials_safe c ->
+Theorem foreign_untouched : forall s c q,
   ~ In q (targets c) -> (s q <> None \/ ~ In q (dir_targets e c)) -> fst (STEP s c) q = s q.
 Proof. intros s c. exact (foreign_event s (Run c)). Qed.
 
-Theorem history_foreign : forall h s q, (forall ev, In ev h -> specials_safe (ev_cfg ev)) ->
+Theorem history_foreign : forall h s q,
   (forall ev, In ev h -> ~ In q (targets (ev_cfg ev))) ->
   (s q <> None \/ forall ev, In ev h -> ~ In q (dir_targets e (ev_cfg ev))) ->
   HIST s h q = s q.
 Proof.
-  intros h s q Ls X Z. destruct (history_rel_fine render e Hwf h s Ls q) as [F _].
+  intros h s q X Z. destruct (history_rel_fine render e Hwf h s (fun ev _ => SS (ev_cfg ev)) q) as [F _].
   destruct F as [F|[[ev [Hev A]] [N _]]].
   - intros [ev [Hev W]]. exact (X ev Hev W).
   - exact F.
   - destruct Z as [Z|Z]; [congruence | exfalso; exact (Z ev Hev A)].
 Qed.
 
-Theorem foreign_dirs_only : forall h s q, (forall ev, In ev h -> specials_safe (ev_cfg ev)) ->
+Theorem foreign_dirs_only : forall h s q,
   (forall ev, In ev h -> ~ In q (targets (ev_cfg ev))) ->
   HIST s h q = s q \/ (s q = None /\ HIST s h q = Some (new_dir e)).
 Proof.
-  intros h s q Ls X. destruct (history_rel_fine render e Hwf h s Ls q) as [F _].
+  intros h s q X. destruct (history_rel_fine render e Hwf h s (fun ev _ => SS (ev_cfg ev)) q) as [F _].
   destruct F as [F|[_ [N F]]]; [|now left | right; auto].
   intros [ev [Hev W]]. exact (X ev Hev W).
 Qed.
 
 (* ---- no overwrite ---- *)
-Theorem no_overwrite_safe : forall s c q, specials_safe c -> c_allow c = false -> s q <> None -> fst (STEP s c) q = s q.
+Theorem no_overwrite_safe : forall s c q, c_allow c = false -> s q <> None -> fst (STEP s c) q = s q.
 Proof.
-  intros s c q Ls Ha Hq. rewrite step_flat. destruct (c_dryrun c) eqn:Hd.
+  intros s c q Ha Hq. pose proof (SS c) as Ls. rewrite step_flat. destruct (c_dryrun c) eqn:Hd.
   - now rewrite list_dry.
   - now apply list_noov_keep.
 Qed.
 
 Theorem no_overwrite_safe_history : forall h s0 q,
-  (forall ev, In ev h -> exists c, ev = Run c /\ c_allow c = false /\ specials_safe c) -> s0 q <> None -> HIST s0 h q = s0 q.
+  (forall ev, In ev h -> exists c, ev = Run c /\ c_allow c = false) -> s0 q <> None -> HIST s0 h q = s0 q.
 Proof.
   induction h as [|ev r IH]; intros s0 q Hall Hq; cbn [history fold_left]; [reflexivity|].
-  destruct (Hall ev (or_introl eq_refl)) as [c [-> [Ha Ls]]]. cbn [apply_event].
+  destruct (Hall ev (or_introl eq_refl)) as [c [-> Ha]]. cbn [apply_event].
   assert (E : fst (STEP s0 c) q = s0 q) by (now apply no_overwrite_safe).
   unfold history in IH. rewrite IH.
   - exact E.
@@ -1152,27 +1163,27 @@ Proof.
   - congruence.
 Qed.
 
-Theorem no_overwrite_conflict_fails : forall s c, specials_safe c ->
+Theorem no_overwrite_conflict_fails : forall s c,
   c_dryrun c = false -> c_allow c = false ->
   (exists p, In p (targets c) /\ s p <> None) -> snd (STEP s c) <> Ok.
 Proof.
-  intros s c Ls Hd Ha [p [Hin Hp]]. rewrite step_flat. apply (list_blocked_fails render e Hwf c Hd Ls); auto.
+  intros s c Hd Ha [p [Hin Hp]]. pose proof (SS c) as Ls. rewrite step_flat. apply (list_blocked_fails render e Hwf c Hd Ls); auto.
   destruct (s p) as [f|] eqn:E; [|congruence]. exists p, f. auto.
 Qed.
 
 (* a directory at the path of a file to generate is never written into, chmod-ed or replaced: the run fails (fix 7df01dd) *)
-Theorem directory_at_target_fails : forall s c, specials_safe c ->
+Theorem directory_at_target_fails : forall s c,
   c_dryrun c = false -> (exists p, In p (targets c) /\ fs_is_dir s p = true) -> snd (STEP s c) <> Ok.
 Proof.
-  intros s c Ls Hd [p [Hin Hp]]. rewrite step_flat. apply (list_blocked_fails render e Hwf c Hd Ls); auto.
+  intros s c Hd [p [Hin Hp]]. pose proof (SS c) as Ls. rewrite step_flat. apply (list_blocked_fails render e Hwf c Hd Ls); auto.
   unfold fs_is_dir in Hp. destruct (s p) as [f|] eqn:E; [|discriminate]. exists p, f. auto.
 Qed.
 
-Theorem directory_at_target_kept : forall s ev q f, specials_safe (ev_cfg ev) -> s q = Some f -> f_isdir f = true ->
+Theorem directory_at_target_kept : forall s ev q f, s q = Some f -> f_isdir f = true ->
   exists f', apply_event render e s ev q = Some f' /\ f_isdir f' = true /\ f_owned f' = f_owned f /\
              (~ In q (targets (ev_cfg ev)) -> f' = f).
 Proof.
-  intros s ev q f Ls E D. pose proof (event_rel_fine render e Hwf ev s Ls) as Rl.
+  intros s ev q f E D. pose proof (event_rel_fine render e Hwf ev s (SS (ev_cfg ev))) as Rl.
   destruct (rel_keeps_kind render e _ _ _ _ q f Rl E) as [f' [E' [D' O']]]. exists f'. repeat split; auto; [congruence|].
   intros X. destruct (Rl q) as [F _]. destruct (F X) as [Y|[_ [Y _]]]; congruence.
 Qed.
@@ -1203,12 +1214,12 @@ Proof. intros s c Hd. rewrite step_flat. now apply list_dry. Qed.
 Theorem regen_total_history : forall h s0 c,
   chmodable e s0 -> (forall p, In p (targets c) -> ready e s0 p = true) ->
   compatible e c c -> (forall ev, In ev h -> compatible e c (ev_cfg ev)) ->
-  targets_plain c -> (forall ev, In ev h -> specials_safe (ev_cfg ev)) ->
+  targets_plain c ->
   c_allow c = true -> c_dryrun c = false -> no_external (c_filepps c) = true ->
   snd (STEP (HIST s0 h) c) = Ok.
 Proof.
-  intros h s0 c Hch Hr Hcc Hch' Lc Lh Ha Hd Hne. rewrite step_flat.
-  pose proof (history_rel_fine render e Hwf h s0 Lh) as Rl.
+  intros h s0 c Hch Hr Hcc Hch' Lc Ha Hd Hne. rewrite step_flat.
+  pose proof (history_rel_fine render e Hwf h s0 (fun ev _ => SS (ev_cfg ev))) as Rl.
   apply (list_total render e Hind Hwf c Hd Hne Ha Hcc Lc); auto.
   - eapply rel_chmodable; eauto.
   - intros p Hp. apply (ready_preserved e _ _ s0 _ p Rl).
@@ -1218,8 +1229,8 @@ Proof.
     + now apply Hr.
 Qed.
 
-Theorem chmodable_history : forall h s0, (forall ev, In ev h -> specials_safe (ev_cfg ev)) -> chmodable e s0 -> chmodable e (HIST s0 h).
-Proof. intros h s0 Ls H. eapply rel_chmodable; [apply (history_rel_fine render e Hwf h s0 Ls) | exact H]. Qed.
+Theorem chmodable_history : forall h s0, chmodable e s0 -> chmodable e (HIST s0 h).
+Proof. intros h s0 H. eapply rel_chmodable; [apply (history_rel_fine render e Hwf h s0 (fun ev _ => SS (ev_cfg ev))) | exact H]. Qed.
 
 (* with a gate that refuses links: a link at a target makes the run fail *)
 Theorem symlink_at_target_fails : forall s c,
@@ -1229,10 +1240,10 @@ Proof.
   intros s0 a. destruct (links e p) as [d|] eqn:L; [|congruence]. exact (gate_refuses_links_now e s0 p a d L).
 Qed.
 
-Theorem special_at_target_fails : forall s c, gate_refuses_special ->
+Theorem special_at_target_fails : forall s c,
   c_dryrun c = false -> (exists p, In p (targets c) /\ links e p = None /\ special e p = true) -> snd (STEP s c) <> Ok.
 Proof.
-  intros s c Hg Hd [p [Hin [L S]]]. rewrite step_flat. apply (list_refused_fails render e c Hd). exists p. split; [exact Hin|].
+  intros s c Hd [p [Hin [L S]]]. pose proof gate_refuses_special_now as Hg. rewrite step_flat. apply (list_refused_fails render e c Hd). exists p. split; [exact Hin|].
   intros s0 a. now apply Hg.
 Qed.
 
@@ -1301,23 +1312,3 @@ Theorem fix_state_guards :
   implb fixed_directory_refusal (negb dir_quirk) && implb fixed_symlink_refusal (negb link_quirk)
   && implb fixed_nonregular_refusal (negb special_quirk) = true.
 Proof. vm_compute. reflexivity. Qed.
-
-(* the gate refuses devices/FIFOs/sockets as soon as the non-regular fix is recorded as landed *)
-Theorem nonregular_regime : if fixed_nonregular_refusal then gate_refuses_special else True.
-Proof.
-  unfold fixed_nonregular_refusal.
-  first [ exact I
-        | intros e s p a L S; unfold handle_overwrite, resolve, is_symlink, fs_exists_at, fs_is_file; rewrite L, S;
-          rewrite ?orb_true_r; destruct (s p) as [f|]; cbn [negb]; rewrite ?andb_false_r; eexists; reflexivity ].
-Qed.
-
-(* while it has not: a device at a target is chmod-ed, "written" (the device swallows the text) and the run reports success
-   although the target does not hold the generated text *)
-Theorem special_at_target_refuted : special_quirk = true ->
-  exists e s c p, c_dryrun c = false /\ c_allow c = true /\ In p (targets c) /\ special e p = true /\
-    snd (step wit_render e s c) = Ok /\ obs (fst (step wit_render e s c) p) = Some (0, 292).
-Proof.
-  unfold special_quirk. intros H. exists (wit_env_special false), wit_special_fs, (wit_cfg true false [4] []), 4.
-  vm_compute in H. first [discriminate H | clear H; vm_compute; intuition (try discriminate; try reflexivity)].
-Qed.
-
